@@ -173,6 +173,29 @@ RULES['CCanydown'] = {
     'ring': 'rule CCanydown{ reactant r1{ C? labeled c1 C? labeled c2 any '
             'bond to c1 } decrease bond order (c1, c2) increase number of '
             'radical (c1) increase number of radical (c2) }'}
+def _ch_scission_closed_shell(atoms, bonds):
+    # C-H scission only at carbons without radical electrons (a RING atom
+    # written without a suffix is neutral and radical-free)
+    tot = [a[1] for a in atoms]
+    for (i, j), o in bonds.items():
+        tot[i] += o
+        tot[j] += o
+    out = []
+    for i, at in enumerate(atoms):
+        if at[0] == 'C' and at[1] > 0 and tot[i] == VALENCE['C'] and \
+                (len(at) < 3 or at[2] == 0):
+            a = list(atoms)
+            a[i] = (at[0], at[1] - 1) + tuple(at[2:])
+            out.append([(a, dict(bonds)), ([], {})])
+    return out
+
+
+for _name, _pre in (('CHclosed', ''), ('CHclosedNonring', 'nonringatom ')):
+    RULES[_name] = {
+        'smarts': None, 'fn': _ch_scission_closed_shell,
+        'ring': 'rule %s{ reactant r1{ %sC labeled c1 H labeled h1 single '
+                'bond to c1 } break bond (c1, h1) increase number of radical '
+                '(c1) increase number of radical (h1) }' % (_name, _pre)}
 RULE_NAMES = sorted(RULES)
 
 
